@@ -117,11 +117,13 @@ def obligations(tier, seed):
     t = 200 if quick else 1200
     cfgs = [('utf-8', ',', 'quoted', None), ('utf-8', ',', 'quoted_rfc', '#'), ('binary', ',', 'quoted', '#'), ('utf-8', '\t', 'simple', None), ('binary', ',', 'quoted_rfc', None)]
     # ASCII-only structure: every partition (CRLF splits are among them because each ascii byte ranges over CR / LF too)
-    ascii_lens = (1, 2, 3) if quick else (1, 2, 3, 4, 5)
+    ascii_lens = (1, 2, 3) if quick else (1, 2, 3, 4)     # 5 ascii bytes x 3 chunks did not finish in the sizing run (~0.6 s per path in lowered code)
     n = seed
     for ci, (enc, dlm, policy, comment) in enumerate(cfgs):
         for L in ascii_lens:
             if quick and L == 3 and ci not in (0, 1):
+                continue
+            if L == 4 and ci not in (0, 1, 2):
                 continue
             pat = ['x' if enc == 'binary' else '1'] * L
             for cuts in _all_cuts(L):
